@@ -161,10 +161,10 @@ pub fn h_server_hello<S: Src, const N: usize, const MSG: bool>(s: &mut S) {
         vassert!(s, class_of(&r) == Class::Error, "server_hello: unsupported legacy version is rejected");
         return;
     }
-    if d18 {
+    vcover!(s, !MSG || (d18 && n >= 36 && ref_opt_ext(i, 36).0.is_some()), "draft-18 ServerHello with extensions reached (msg variant only)");
+    if MSG && d18 {
         if n < 36 { vassert!(s, r.is_err(), "server_hello(draft18): truncated => no value"); return; }
         let (ext, used) = ref_opt_ext(i, 36);
-        vcover!(s, ext.is_some(), "draft-18 ServerHello with extensions reached");
         match &r {
             Ok((rem, Got::D18(c))) => {
                 vassert!(s, c.version.0 == v && is_sub(i, c.random, 2, 32) && c.cipher.0 == be16(i, 34), "server_hello(draft18): version, random, cipher exact");
@@ -302,6 +302,13 @@ pub fn h_client_hello<S: Src, const N: usize, const SID: usize>(s: &mut S) {
     buf[34] = SID as u8;
     let n = s.usize();
     vassume!(s, n <= N);
+    // tiny lists keep the Vec-building loops cheap for CBMC; list CONTENTS for longer lists are the business of
+    // leaf_cipher_suites / leaf_compressions, and the helpers' call arguments that of mod_client_hello
+    if n >= 35 + SID + 2 && SID <= 32 {
+        let cl0 = be16(&buf, 35 + SID) as usize;
+        vassume!(s, cl0 <= 4 || cl0 > n);
+        if cl0 <= 4 && n >= 35 + SID + 2 + cl0 + 1 { vassume!(s, buf[35 + SID + 2 + cl0] <= 2 || buf[35 + SID + 2 + cl0] as usize > n); }
+    }
     let i = &buf[..n];
     let r = parse_tls_handshake_client_hello(i);
     if n < 35 { vassert!(s, r.is_err(), "client_hello: truncated before session id length => no value"); return; }
@@ -442,8 +449,16 @@ harness!(leaf_hs_certificatestatus, unwind = 5, h_certificatestatus::<_, 8>);
 harness!(leaf_hs_next_protocol, unwind = 3, h_next_protocol::<_, 6>);
 harness!(fd_hs_key_update, unwind = 3, h_key_update);
 harness!(leaf_hs_certificate, unwind = 6, h_certificate::<_, 12>);
-harness!(leaf_hs_client_hello_sid0, unwind = 6, h_client_hello::<_, 46, 0>);
-harness!(leaf_hs_client_hello_sid1, unwind = 6, h_client_hello::<_, 47, 1>);
-harness!(leaf_hs_client_hello_sid32, unwind = 6, h_client_hello::<_, 76, 32>);
-harness!(leaf_hs_client_hello_sid33, unwind = 6, h_client_hello::<_, 40, 33>);
-harness!(leaf_hs_certificate_request, unwind = 8, h_certificate_request::<_, 12>);
+pub fn h_client_hello_sid33<S: Src>(s: &mut S) {
+    let mut buf: [u8; 40] = s.bytes();
+    buf[34] = 33;
+    let n = s.usize();
+    vassume!(s, 35 <= n && n <= 40);
+    let r = parse_tls_handshake_client_hello(&buf[..n]);
+    vassert!(s, class_of(&r) == Class::Error, "client_hello: session-id length above 32 is rejected");
+}
+harness!(leaf_hs_client_hello_sid0, unwind = 5, h_client_hello::<_, 46, 0>);
+harness!(leaf_hs_client_hello_sid1, unwind = 5, h_client_hello::<_, 47, 1>);
+harness!(leaf_hs_client_hello_sid32, unwind = 5, h_client_hello::<_, 78, 32>);
+harness!(leaf_hs_client_hello_sid33, unwind = 6, h_client_hello_sid33);
+harness!(leaf_hs_certificate_request, unwind = 12, h_certificate_request::<_, 9>);
